@@ -65,7 +65,9 @@ type Episode struct {
 	// PostWait: how long to watch the server process after an answered request (crashes in
 	// goroutines the request started); reset by the caller
 	PostWait time.Duration
-	pending  int
+	// LastSub is the id of the most recently created subscription (the server's id counter)
+	LastSub uint32
+	pending int
 	// sessions by role
 	Valid, Valid2, NotAct, Closed *Sess
 }
@@ -145,7 +147,7 @@ func (e *Episode) Canon(st *State) string {
 	if e.Spec.NoSecurity {
 		ee = 1
 	}
-	return fmt.Sprintf("S=%s U=%s I=%s N=%d V=%s E=%d A=%s D=%s", od(ss), od(us), od(is), st.ItemCounter, st.Value, ee, acc,
+	return fmt.Sprintf("S=%s U=%s I=%s N=%d L=%d V=%s E=%d A=%s D=%s", od(ss), od(us), od(is), st.ItemCounter, e.LastSub, st.Value, ee, acc,
 		attrCls(st.Attrs["DataType"], "*ua.ExpandedNodeID"))
 }
 
@@ -277,6 +279,8 @@ func (e *Episode) DoOn(on *Chan, kind, mreq string, req ua.Request, note string)
 		if f := strings.Fields(mreq); len(f) == 4 && f[3] != "rsa" {
 			e.NonRSA[e.Next] = true
 		}
+	case *ua.CreateSubscriptionResponse:
+		e.LastSub = resp.SubscriptionID
 	case *ua.ActivateSessionResponse:
 		e.Act[mtok] = true
 	case *ua.DeleteSubscriptionsResponse:
